@@ -109,7 +109,7 @@ claim('C05', 'Coq proof (invariant of a file-system model with volatile/durable 
       'stays available in every view; redis dump is one SET.  Tie: os-level traces of real dump/re-dump/pack/remove/cleanup (pickles 0 B-5 MB, '
       'raw and compressed arrays) must be accepted, reproduce the real listing, and every update_pack unlink must be covered by the durable pack; '
       'every kill / power-loss image and every reader instant of those runs is checked with a fresh file_store, which must also be able to WRITE again '
-      '(re-dump, pack, remove: residue never blocks a later write); redis values whose encoding crosses 4/32 MiB with a reader before every command; exceptions travelling through dump() mid-write (transient pickling failures, OSError / ValueError / KeyboardInterrupt on the raw .npy and the pickle branch: D25); tempfiles/ on another filesystem (every rename out of it fails with EXDEV: the operation raises, no final name is opened / truncated / written).  Found and fixed: jug pack could '
+      '(re-dump, pack, remove: residue never blocks a later write); redis values whose encoding crosses 4/32 MiB with a reader before every command; exceptions travelling through dump() mid-write (transient pickling failures, OSError / ValueError / KeyboardInterrupt on the raw .npy and the pickle branch: D25); tempfiles/ on another filesystem (every rename out of it fails with EXDEV: the operation raises, no final name is opened / truncated / written); an fsync of a file failing once with EIO under Linux semantics (data written before the failure is never durable, whatever a later fsync returns).  Found and fixed: jug pack could '
       'lose results on power loss (6a45d89).',
       'Kernel + vm_compute; the Fs crash model is the hypothesis (fsync of a directory makes it and its entries durable; un-fsynced data is garbage; '
       'later directory operations independently lost); fin/complete/unlink entitlement/covers decided by the harness (strict decoder, API arguments); '
